@@ -566,7 +566,7 @@ fn named_escape(cx: &mut Ctx) {
 fn radix_forwarding(cx: &mut Ctx) {
     let rule = "C06.R2";
     cx.rule(rule, "radix forwarding: inside every lexer function that has a `radix` parameter, each call of another radix-parameterised function (discovered from the signatures: lex_number_radix, radix_run, take_number, is_digit_of_radix) and of BigInt::from_str_radix passes that same `radix` — digits, the `_` separator look-ahead and the value conversion all use the literal's own radix");
-    cx.floor(rule, 5);
+    cx.floor(rule, 4);
     let Some(lx) = lr::load_lexer(cx, rule) else { return };
     let mut radix_fns: BTreeMap<String, usize> = BTreeMap::new();
     let mut bodies: Vec<&syn::ImplItemFn> = vec![];
@@ -582,8 +582,8 @@ fn radix_forwarding(cx: &mut Ctx) {
         }
     }
     radix_fns.insert("from_str_radix".into(), 1);
-    if bodies.len() < 4 {
-        cx.fail(rule, &format!("{}/anchors", rule), &lx.rel, &format!("{} functions with a `radix` parameter (4 expected)", bodies.len()));
+    if bodies.len() < 3 {
+        cx.fail(rule, &format!("{}/anchors", rule), &lx.rel, &format!("{} functions with a `radix` parameter (at least 3 expected: lex_number_radix, radix_run, is_digit_of_radix)", bodies.len()));
     }
     for f in bodies {
         let fname = f.sig.ident.to_string();
@@ -625,9 +625,16 @@ fn value_conversions(cx: &mut Ctx) {
         ("decimal-int", "letvalue=value_text.parse::<BigInt>().unwrap();", "decimal integers: value_text.parse::<BigInt>()"),
         ("float", "letvalue=f64::from_str(&value_text).map_err(", "floats: f64::from_str(&value_text)"),
         ("imag-int", "letimag=f64::from_str(&value_text).unwrap();", "imaginary integer literals: f64::from_str(&value_text)"),
-        ("radix_run-push", "matchself.take_number(radix){Some(c)=>{value_text.push(c);},", "radix_run pushes every digit it takes"),
         ("complex-value", "Tok::Complex{real:0.0,imag:value,}", "the float path's imaginary literal carries the parsed value with real 0.0"),
     ];
+    // radix_run pushes every digit it takes: through take_number (`Some(c) => push(c)`) or with the digit test in place
+    let via_helper = t.contains("matchself.take_number(radix){Some(c)=>{value_text.push(c);},");
+    let in_place = t.contains("ifLexer::<T>::is_digit_of_radix(self.window[0],radix){value_text.push(self.next_char().unwrap())");
+    if via_helper || in_place {
+        cx.ok(rule, "radix_run pushes every digit it takes");
+    } else {
+        cx.fail(rule, &format!("{}/radix_run-push", rule), &lx.rel, "missing or altered: radix_run pushes every digit it takes");
+    }
     for (k, frag, what) in checks {
         if t.contains(frag) {
             cx.ok(rule, what);
@@ -645,6 +652,7 @@ fn value_conversions(cx: &mut Ctx) {
     match lr::lexer_method(&lx, "take_number") {
         Some(m) if ["{lettake_char=Lexer::<T>::is_digit_of_radix(self.window[0],radix);take_char.then(||self.next_char().unwrap())}", "{(Lexer::<T>::is_digit_of_radix(self.window[0],radix)).then(||self.next_char().unwrap())}", "{Lexer::<T>::is_digit_of_radix(self.window[0],radix).then(||self.next_char().unwrap())}"].contains(&sm::tsc(&m.block).as_str()) => cx.ok(rule, "take_number consumes window[0] iff it is a digit of the radix"),
         Some(m) => cx.fail(rule, &format!("{}/take_number", rule), &lx.loc(m), "take_number is not `is_digit_of_radix(window[0], radix).then(|| next_char().unwrap())`"),
+        None if in_place => cx.ok(rule, "the digit test and the consumption sit in radix_run itself"),
         None => cx.anchor_missing(rule, "take_number"),
     }
 }
